@@ -127,3 +127,22 @@ Proof.
   intros G H F I. simpl. rewrite G, H, with_variant_find, F, I. simpl.
   unfold build_dict, dict_ctor. simpl. rewrite H. reflexivity.
 Qed.
+
+(* the chosen variant's declared tag has the kind of the tag in the data and equals it:
+   True or 1.0 never selects the variant tagged 1 *)
+Lemma find_variant_same_kind {T} tagv (vs : list (pyval * T)) t :
+  find_variant tagv vs = Some t -> exists tv, In (tv, t) vs /\ kind_of tagv = kind_of tv /\ py_eqb tagv tv = true.
+Proof.
+  induction vs as [|[tv u] r IH]; simpl; [discriminate|].
+  destruct (lit_match tagv tv) eqn:M.
+  - intros H; inversion H; subst. exists tv. split; [now left|]. split; [now apply lit_match_kind|now apply lit_match_eqb].
+  - intros H. destruct (IH H) as (tv' & Hin & K & E). exists tv'. split; [now right|auto].
+Qed.
+
+Lemma find_variant_ill_kinded {T} tagv (vs : list (pyval * T)) :
+  (forall tv, In tv (map fst vs) -> kind_of tv <> kind_of tagv) -> find_variant tagv vs = None.
+Proof.
+  intros H. destruct (find_variant tagv vs) as [t|] eqn:F; [|reflexivity].
+  apply find_variant_same_kind in F as (tv & Hin & K & _). exfalso. apply (H tv); [|congruence].
+  apply in_map_iff. exists (tv, t). split; [reflexivity|assumption].
+Qed.
